@@ -17,6 +17,7 @@
 //! exact arithmetic; the factor 2 and the drift term cover the incrementally updated gradient.
 
 pub mod case;
+pub mod mem;
 pub mod oracle;
 pub mod run;
 
@@ -26,7 +27,7 @@ use vengine::{prop_sub, Property, Tier};
 pub fn property() -> Property {
     Property {
         id: "C13",
-        rule: "case = (layout separable|overlap|imbalanced 1:5|duplicated points, n, 1..3 features, feature offset 0|1e1..1e3|1e7|1e8 (Gaussian kernel), kernel linear|Gaussian|polynomial, \
+        rule: "case = (memory layout of training records and of the query batch: owned row-/column-major, views row-/column-major/strided with gaps/reversed rows; layout separable|overlap|imbalanced 1:5|duplicated points, n, 1..3 features, feature offset 0|1e1..1e3|1e7|1e8 (Gaussian kernel), kernel linear|Gaussian|polynomial, \
                task C-SVC with (c+,c-)|nu-SVC|eps-SVR|nu-SVR|one-class, solver eps 1e-3|1e-5, shrinking, f32|f64, 4 fresh points), built from \
                proptest-drawn gaussian noise and selectors. Non-trivial = the solver reports exit on the threshold and the published solution \
                has at least one free and at least one bounded support vector; with shrinking additionally iterations > min(#variables, 1000) \
@@ -74,7 +75,7 @@ pub fn property() -> Property {
                 oracle::check,
             )
             .chunks(16)
-            .require(&["task_c_svc", "task_nu_svc", "task_eps_svr", "task_one_class", "has_free_sv", "has_bounded_sv", "offset_data", "offset_ge_1e7_f64", "poly_fractional_degree"]),
+            .require(&["task_c_svc", "task_nu_svc", "task_eps_svr", "task_one_class", "has_free_sv", "has_bounded_sv", "offset_data", "offset_ge_1e7_f64", "poly_fractional_degree", "mem_owned_column_major", "mem_view_column_major", "mem_view_strided_with_gaps", "linear_kernel_non_standard_layout"]),
             prop_sub(
                 "f32",
                 2400,
